@@ -24,6 +24,7 @@ import logging  # noqa: E402
 logging.disable(logging.CRITICAL)
 
 from ocean_science_utilities.filecache import cache_object as co  # noqa: E402
+from ocean_science_utilities.filecache import filecache as fcmod  # noqa: E402
 from ocean_science_utilities.filecache.cache_object import FileCache  # noqa: E402
 from ocean_science_utilities.filecache.remote_resources import (  # noqa: E402
     RemoteResource, _RemoteResourceUriNotFound)
@@ -169,6 +170,30 @@ class Runner:
         sz = self.h["maxb"] / 1e9
         if not first:
             sz = 123.0          # ignored: the persisted configuration wins
+        if self.h.get("via_module"):
+            # the module-level API of filecache.py: named caches, one path per cache
+            name = "verif_cache_%d" % id(self)
+            fcmod._ACTIVE_FILE_CACHES.pop(name, None)
+            fcmod.create_cache(name, self.dir, cache_size_GB=sz, do_cache_eviction_on_startup=do_evict,
+                               download_in_parallel=self.h["par"] if first else (not self.h["par"]),
+                               resources=[TestResource()])
+            self.modname = name
+            c = fcmod.get_cache(name)
+            c.disable_progress_bar = True
+            fcmod.set_directive_function("validate", "chk", validate_fn, name)
+            fcmod.set_directive_function("postprocess", "pp", post_fn, name)
+            self.cache = c
+            # a second cache on the same directory must be refused; the name must be known
+            self.module_facts = []
+            try:
+                fcmod.create_cache(name + "_twin", self.dir, resources=[TestResource()])
+                fcmod._ACTIVE_FILE_CACHES.pop(name + "_twin", None)
+                self.module_facts.append("second cache on the same path was accepted")
+            except ValueError:
+                pass
+            if not fcmod.exists(name) or fcmod.exists(name + "_twin"):
+                self.module_facts.append("exists() wrong")
+            return
         c = FileCache(self.dir, size_GB=sz, do_cache_eviction_on_startup=do_evict,
                       resources=[TestResource()],
                       parallel=self.h["par"] if first else (not self.h["par"]),
@@ -241,6 +266,11 @@ class Runner:
         o = {"res": res, "files": files, "order": order, "fetched": fetched}
         if with_entries and self.cache is not None:
             o["entries"] = sorted(CANON.get(k, "?" + k) for k in self.cache._entries.keys())
+            probe = [(r, k) for r in range(4) for k in range(3)]
+            inc = self.cache.in_cache([uri_of(r, k) for r, k in probe])
+            o["in_cache"] = sorted("C.%d.%d" % rk for rk, b in zip(probe, inc) if b)
+            if getattr(self, "module_facts", None):
+                o["module_facts"] = list(self.module_facts)
             o["len"] = len(self.cache)
             o["maxb"] = int(self.cache.config.max_size_bytes)
             o["par"] = bool(self.cache.config.parallel)
@@ -274,7 +304,10 @@ class Runner:
         PLAN.t0 = time.time_ns()
         arg = uris[0] if (len(uris) == 1 and op.get("single")) else uris
         try:
-            paths = self.cache[arg]
+            if self.h.get("via_module"):
+                paths = fcmod.filepaths(arg, self.modname)
+            else:
+                paths = self.cache[arg]
             res = ["P", [CANON.get(os.path.basename(p), "?" + os.path.basename(p)) for p in paths]]
             # the property's own oracle, on the real directory: every returned path exists now
             res.append([os.path.exists(p) for p in paths])
@@ -374,7 +407,10 @@ class Runner:
             if self.cache is None and kind in ("R", "P", "M"):
                 return ["?", "no cache object"], True
             if kind == "R":
-                self.cache.remove(uri_of(op["r"], op["k"]))
+                if self.h.get("via_module"):
+                    fcmod.delete_files(uri_of(op["r"], op["k"]), self.modname, error_if_not_in_cache=False)
+                else:
+                    self.cache.remove(uri_of(op["r"], op["k"]))
             elif kind == "P":
                 self.cache.purge()
             elif kind == "M":
